@@ -4,12 +4,14 @@ tls  : C01-style connections with symbolic MAC/IP addresses and client port, rec
        capture time per input packet; every exported packet must be oriented sender -> receiver with the connection's addresses,
        carry the time of an input packet that overlapped the same record, and the synthetic handshake the first record's time.
 quic : the same for QUIC datagrams (time and direction of the input datagram).
-ts   : microsecond preservation: the expression that computes `ts` in dpkt_dsb.Reader.__iter__ is lifted from the source (ast),
-       composed with dpkt's writer (intround(ts * 1e6)) and decided in the standard relative-error model of IEEE-754 doubles."""
+ts   : microsecond preservation: the real dpkt_dsb.Reader is run on a block model whose tick words are recording variables
+       (tlv.sx.realmodel), the recorded computation of `ts` is composed with dpkt's writer (intround(ts * 1e6)) and decided in the
+       standard relative-error model of IEEE-754 doubles.
+segmeta : C05-style cut/duplicated/reordered segments; record.metadata must name exactly the segments overlapping the record."""
 import random
 
 VALIDATE = True
-SITES = ["no-exception", "tls-endpoints-oriented", "tls-times-from-overlapping-packets", "tls-handshake-time", "quic-endpoints-oriented",
+SITES = ["no-exception", "metadata-exactly-overlapping-packets", "tls-endpoints-oriented", "tls-times-from-overlapping-packets", "tls-handshake-time", "quic-endpoints-oriented",
          "quic-datagram-time", "ts-expression-recognised", "ts-microsecond-roundtrip"]
 MODELS = ["as C01/C02; capture times are symbolic integers (the pipeline only copies and compares them)",
           "IPv4Address/IPv6Address on symbolic bytes: proxy object (shim in session / quic_session)",
@@ -42,6 +44,14 @@ def configs(tier, seed):
             cc.update(harness="quic", name="quic-%s-v%d" % (c["name"], ipv), ipv=ipv)
             out.append(cc)
     out.append({"harness": "ts", "name": "ts-microsecond-lemma", "mode": "real", "validate": False})
+    # attribution of records to input packets under cuts, duplicates and reordering (the C05 scenarios, other observation)
+    from tlv.harness import c05
+    for c5 in c05.configs(tier, seed):
+        if c5["isn"] != "any":
+            continue
+        cc = dict(c5)
+        cc.update(harness="segmeta", name="segmeta-" + c5["name"])
+        out.append(cc)
     return out
 
 
@@ -227,107 +237,46 @@ def _run_quic(cfg):
 
 # ---- microsecond lemma -----------------------------------------------------------------------------------------------------
 
-def ts_expressions():
-    """The expressions assigned to `ts` in dpkt_dsb.Reader.__iter__ for packet blocks, as ast nodes."""
-    import ast
-    import os
-    src = open(os.path.join(os.environ.get("TLV_REPO", "/repo"), "tlexport", "dpkt_dsb.py")).read()
-    tree = ast.parse(src)
-    found = []
-    for node in ast.walk(tree):
-        if isinstance(node, ast.FunctionDef) and node.name == "__iter__":
-            for sub in ast.walk(node):
-                if isinstance(sub, ast.Assign) and len(sub.targets) == 1 and getattr(sub.targets[0], "id", None) == "ts":
-                    if not (isinstance(sub.value, ast.UnaryOp) or isinstance(sub.value, ast.Constant)):
-                        found.append(sub.value)
-    return found
-
-
-def model_ts(node, env, z3, errs, u):
-    """AST -> (z3 real term, is_float).  Integer operations are exact; every float operation gets a relative error variable."""
-    import ast
-
-    def fl(x):
-        d = z3.Real("delta%d" % len(errs))
-        errs.append(d)
-        return x * (1 + d)
-    if isinstance(node, ast.BinOp):
-        a, af = model_ts(node.left, env, z3, errs, u)
-        b, bf = model_ts(node.right, env, z3, errs, u)
-        if isinstance(node.op, ast.LShift):
-            if not isinstance(node.right, ast.Constant):
-                raise ValueError("shift by non-constant")
-            return a * (2 ** node.right.value), False
-        if isinstance(node.op, ast.BitOr):
-            return a + b, False          # high << 32 | low with low < 2^32
-        if isinstance(node.op, ast.Add):
-            if z3.is_rational_value(a) and a.numerator_as_long() == 0:
-                return b, bf          # x + 0 is exact in IEEE arithmetic
-            if z3.is_rational_value(b) and b.numerator_as_long() == 0:
-                return a, af
-            return (fl(a + b), True) if (af or bf) else (a + b, False)
-        if isinstance(node.op, ast.Sub):
-            return (fl(a - b), True) if (af or bf) else (a - b, False)
-        if isinstance(node.op, ast.Mult):
-            return (fl(a * b), True) if (af or bf) else (a * b, False)
-        if isinstance(node.op, ast.Div):
-            return fl(a / b), True
-        if isinstance(node.op, ast.FloorDiv):
-            q = z3.Int("floor%d" % len(errs))
-            errs.append(("cons", z3.And(z3.ToReal(q) <= a / b, a / b < z3.ToReal(q) + 1)))
-            return z3.ToReal(q), (af or bf)
-        raise ValueError("operator %s" % type(node.op).__name__)
-    if isinstance(node, ast.Attribute):
-        name = node.attr
-        if name not in env:
-            raise ValueError("name " + name)
-        return env[name]
-    if isinstance(node, ast.Constant) and isinstance(node.value, (int, float)):
-        return z3.RealVal(repr(node.value)), isinstance(node.value, float)
-    raise ValueError("node %s" % type(node).__name__)
-
-
 def _run_ts(cfg):
+    """The real Reader is run over SHB, IDB(if_tsresol 6), EPB, PB whose tick words are recording variables (tlv.sx.realmodel); the
+    recorded floating-point computation is then decided in z3's real arithmetic with one relative error per rounding."""
     import time
     import z3
+    from tlv.sx import realmodel as rm
     t0 = time.time()
-    u = z3.RealVal(1) / z3.RealVal(2 ** 53)
     viol, sites = [], {"ts-expression-recognised": 0, "ts-microsecond-roundtrip": 0}
-    exprs = ts_expressions()
     queries = 0
     inconclusive = []
-    if len(exprs) < 2:
-        viol.append({"label": "ts-expression-recognised", "inputs": {}, "detail": "expected the EPB and PB timestamp assignments, found %d" % len(exprs)})
-    for k, e in enumerate(exprs):
-        hi, lo = z3.Int("ts_high"), z3.Int("ts_low")
-        env = {"ts_high": (z3.ToReal(hi), False), "ts_low": (z3.ToReal(lo), False), "_divisor": (z3.RealVal(10 ** 6), True), "_tsoffset": (z3.RealVal(0), False)}
-        errs = []
+    exprs = []
+    VARIANTS = {"explicit-tsresol-6": (6, 10 ** 6, False), "default-tsresol": (None, 10 ** 6, False), "tsresol-3": (3, 10 ** 3, True),
+                "tsresol-9-nearest": (9, 10 ** 9, "nearest"), "tsresol-2^-20-nearest": (20 - 128, 2 ** 20, "nearest")}
+    for variant, (raw, _, _) in VARIANTS.items():
         try:
-            ts, isf = model_ts(e, env, z3, errs, u)
-        except ValueError as ex:
-            inconclusive.append("timestamp expression not recognised: %s" % ex)
+            got = rm.recorded_timestamps(raw, 0) if raw is not None else _default_ts(rm)
+        except rm.Unsupported as ex:
+            inconclusive.append("timestamp computation not recorded (%s): %s" % (variant, ex))
+            continue
+        except Exception as ex:
+            viol.append({"label": "ts-expression-recognised", "inputs": {"variant": variant}, "detail": "%s: %s" % (type(ex).__name__, ex)})
+            continue
+        if len(got) != 2:
+            viol.append({"label": "ts-expression-recognised", "inputs": {"variant": variant}, "detail": "expected the EPB and PB timestamps, got %d" % len(got)})
+            continue
+        exprs += [(variant, k, e) for k, e in enumerate(got)]
+    for variant, k, e in exprs:
+        try:
+            s, m, _ = rm.microsecond_query(e, VARIANTS[variant][1], VARIANTS[variant][2])
+        except rm.Unsupported as ex:
+            inconclusive.append("timestamp computation not modelled: %s" % ex)
             continue
         sites["ts-expression-recognised"] += 1
-        d = z3.Real("delta_w")
-        m = ts * z3.RealVal(10 ** 6) * (1 + d)          # writer: intround(ts * 1e6)
-        errs.append(d)
-        ticks = z3.ToReal(hi) * (2 ** 32) + z3.ToReal(lo)
-        s = z3.Solver()
-        s.set("timeout", 120000)
-        s.add(hi >= 0, lo >= 0, lo < 2 ** 32, ticks < 2 ** 51)
-        for x in errs:
-            if isinstance(x, tuple):
-                s.add(x[1])
-            else:
-                s.add(x >= -u, x <= u)
-        # round-half-even returns ticks iff |m - ticks| < 1/2 (ties cannot be excluded, so they count as failures)
-        s.add(z3.Or(m - ticks >= z3.RealVal(1) / 2, ticks - m >= z3.RealVal(1) / 2))
         r = s.check()
         queries += 1
         sites["ts-microsecond-roundtrip"] += 1
         if r == z3.sat:
             mdl = s.model()
-            viol.append({"label": "ts-microsecond-roundtrip", "inputs": {"ts_high": mdl[hi].as_long(), "ts_low": mdl[lo].as_long(), "block": k},
+            viol.append({"label": "ts-microsecond-roundtrip", "inputs": {"ts_high": mdl[m.vars["ts_high"]].as_long(), "ts_low": mdl[m.vars["ts_low"]].as_long(), "block": k,
+                                                                            "variant": variant},
                          "detail": "model allows a written tick different from the read tick"})
         elif r != z3.unsat:
             inconclusive.append("solver returned %s" % r)
@@ -336,13 +285,102 @@ def _run_ts(cfg):
             "samples": [{"path": 0, "inputs": {"expressions": len(exprs)}, "result": "relative-error model, ticks < 2^51", "validate": False}]}
 
 
+def _default_ts(rm):
+    """No if_tsresol / if_tsoffset options: the defaults of the reader (microseconds)."""
+    from tlv.harness import c12
+    import tlexport.dpkt_dsb as dd
+    dpng, DsbBE, DsbLE = c12.make_dpng(True, [])
+    saved = (dd.dpng, dd.DecryptionSecretBlock, dd.DecryptionSecretBlockLE)
+    dd.dpng, dd.DecryptionSecretBlock, dd.DecryptionSecretBlockLE = dpng, DsbBE, DsbLE
+    try:
+        hi, lo = rm.var("ts_high", 32), rm.var("ts_low", 32)
+        blocks = [{"type": c12.SHB}, {"type": c12.IDB, "opts": [], "linktype": 1, "snaplen": 65535},
+                  {"type": c12.EPB, "ts_high": hi, "ts_low": lo, "pkt_data": b"e"}, {"type": c12.PB, "ts_high": hi, "ts_low": lo, "pkt_data": b"p"}]
+        return [t for t, _ in dd.Reader(c12.FileModel(blocks))]
+    finally:
+        dd.dpng, dd.DecryptionSecretBlock, dd.DecryptionSecretBlockLE = saved
+
+
+def _run_segmeta(cfg):
+    """Session reassembly as in C05; here the observation is record.metadata: exactly the packets whose bytes overlap the record."""
+    from tlv.sx import shims
+    from tlv.sx.core import ctx, sym_int, sym_choice
+    from tlv.sx.symbytes import mixed_bytes
+    from tlv.harness import c05
+    from tlv.harness.common import explore_cfg
+    import tlexport.session as ts
+    import tlexport.tlsrecord as tr
+    shims.install(ts)
+    shims.install(tr)
+
+    def scenario():
+        c = ctx()
+        plan = c05._plan(cfg, sym_choice)
+        nrec, lens, total, segs, order, other_pos = plan
+        recs = [mixed_bytes("rec%d" % i, [3, (lens[i]).to_bytes(2, "big"), lens[i]]) for i in range(nrec)]
+        other = mixed_bytes("other", [3, b"\x00\x01", 1])
+        isn = sym_int("isn", 0, (1 << 32) - 1)
+        isn_o = sym_int("isn_other", 0, (1 << 32) - 1)
+        pkts = c05._build(cfg, plan, recs, other, isn, isn_o)
+        try:
+            s, got = c05._run_session(pkts)
+        except Exception as e:
+            c.fail("no-exception", "%s: %s" % (type(e).__name__, e))
+            return {"outcome": "exception"}
+        c.check(True, "no-exception")
+        main_server = cfg["main"] == "server"
+        if c05._ooo_event(s, got, plan, main_server):
+            return {"outcome": "known C05 finding", "validate": False}
+        mine = [r for r, f in got if c05._from_main(r, main_server)]
+        if len(mine) != nrec:
+            return {"outcome": "incomplete (C05's subject)", "validate": False}
+        start = 0
+        bad = []
+        for i, r in enumerate(mine):
+            end = start + 5 + lens[i]
+            want = ["main%d" % k for k, (a, b) in enumerate(segs) if a < end and b > start]
+            have = [p.tag for p in r.metadata]
+            if have != want:
+                bad.append("record %d [%d,%d): attributed to %r, carried by %r" % (i, start, end, have, want))
+            start = end
+        c.check(not bad, "metadata-exactly-overlapping-packets", "; ".join(bad[:2]))
+        return {"outcome": "ok", "validate": False}
+    return explore_cfg(scenario, cfg, timeout_ms=60000, max_paths=300000, sample_paths=1)
+
+
 def run_config(cfg):
-    return {"tls": _run_tls, "quic": _run_quic, "ts": _run_ts}[cfg["harness"]](cfg)
+    return {"tls": _run_tls, "quic": _run_quic, "ts": _run_ts, "segmeta": _run_segmeta}[cfg["harness"]](cfg)
+
+
+def _replay_segmeta(cfg, inp):
+    from tlv.harness import c05
+
+    def choose(name, options):
+        return options[inp[name]] if len(options) > 1 else options[0]
+    plan = c05._plan(cfg, choose)
+    nrec, lens, total, segs, order, other_pos = plan
+    recs = [bytes.fromhex(inp["rec%d" % i]) for i in range(nrec)]
+    pkts = c05._build(cfg, plan, recs, bytes.fromhex(inp["other"]), inp["isn"], inp["isn_other"])
+    s, got = c05._run_session(pkts)
+    main_server = cfg["main"] == "server"
+    mine = [r for r, f in got if c05._from_main(r, main_server)]
+    problems = []
+    start = 0
+    for i, r in enumerate(mine[:nrec]):
+        end = start + 5 + lens[i]
+        want = ["main%d" % k for k, (a, b) in enumerate(segs) if a < end and b > start]
+        have = [p.tag for p in r.metadata]
+        if have != want:
+            problems.append("record %d attributed to %r, carried by %r" % (i, have, want))
+        start = end
+    return {"reproduced": bool(problems), "problems": problems[:3]}
 
 
 def replay(cfg, viol):
     h = cfg["harness"]
     inp = viol["inputs"]
+    if h == "segmeta":
+        return _replay_segmeta(cfg, inp)
     if h == "ts":
         # concrete round trip through the real reader and dpkt's writer
         import io
@@ -352,7 +390,10 @@ def replay(cfg, viol):
         if viol["label"] != "ts-microsecond-roundtrip":
             return {"reproduced": True, "why": viol.get("detail")}
         ticks = (inp["ts_high"] << 32) | inp["ts_low"]
-        buf = io.BytesIO(pcapng.shb() + pcapng.idb(tsresol=6) + (pcapng.epb if inp.get("block", 0) == 0 else pcapng.pb)(b"\x00" * 20, ticks))
+        from fractions import Fraction
+        raw, div, mode = {"explicit-tsresol-6": (6, 10 ** 6, False), "default-tsresol": (None, 10 ** 6, False), "tsresol-3": (3, 10 ** 3, True),
+                          "tsresol-9-nearest": (9, 10 ** 9, "nearest"), "tsresol-2^-20-nearest": (128 + 20, 2 ** 20, "nearest")}[inp.get("variant", "explicit-tsresol-6")]
+        buf = io.BytesIO(pcapng.shb() + pcapng.idb(tsresol=raw) + (pcapng.epb if inp.get("block", 0) == 0 else pcapng.pb)(b"\x00" * 20, ticks))
         got = [ts for ts, b in Reader(buf)]
         out = io.BytesIO()
         w = dpkt.pcapng.Writer(out)
@@ -365,7 +406,9 @@ def replay(cfg, viol):
             back = pcapng.read_capture(f.name)[0][1]
         finally:
             os.unlink(f.name)
-        return {"reproduced": back != ticks, "ticks": ticks, "written": back}
+        want = Fraction(ticks * 10 ** 6, div)
+        bad = abs(back - want) >= 1 if mode == "nearest" else back != want
+        return {"reproduced": bool(bad), "instant_microseconds": str(want), "written": back}
     return _replay_e2e(cfg, inp)
 
 
@@ -449,7 +492,7 @@ def _replay_e2e(cfg, inp):
 
 
 def validate(cfg, sample):
-    if cfg["harness"] == "ts":
+    if cfg["harness"] in ("ts", "segmeta"):
         return {"agree": True}
     r = _replay_e2e(cfg, sample["inputs"])
     return {"agree": not r["reproduced"], **r}
